@@ -608,8 +608,8 @@ impl Property for C02 {
     }
     fn budget(&self, tier: Tier) -> Budget {
         match tier {
-            Tier::Quick => Budget { cases: 12_000, min_len: 8, max_len: 300 },
-            Tier::Thorough => Budget { cases: 600_000, min_len: 8, max_len: 360 },
+            Tier::Quick => Budget { cases: 20_000, min_len: 8, max_len: 300 },
+            Tier::Thorough => Budget { cases: 1_000_000, min_len: 8, max_len: 360 },
         }
     }
     fn run(&self, src: &mut Src, rep: &mut Report) -> Verdict {
@@ -640,8 +640,8 @@ impl Property for C03 {
     }
     fn budget(&self, tier: Tier) -> Budget {
         match tier {
-            Tier::Quick => Budget { cases: 10_000, min_len: 8, max_len: 400 },
-            Tier::Thorough => Budget { cases: 500_000, min_len: 8, max_len: 460 },
+            Tier::Quick => Budget { cases: 16_000, min_len: 8, max_len: 400 },
+            Tier::Thorough => Budget { cases: 800_000, min_len: 8, max_len: 460 },
         }
     }
     fn run(&self, src: &mut Src, rep: &mut Report) -> Verdict {
